@@ -67,11 +67,24 @@ func (o *OracleC03) OnOut(n *Node, st *Step, out *Out) {
 	p := out.P
 	r := o.rec(n, p.H)
 	// view carried by own top-level messages never decreases within a height
-	if r.hasView && p.V < r.lastView {
+	// (a restarted validator that got its own earlier (pre)commit back re-sends exactly that
+	// payload, whose view is the one it was made in: the retransmission clause governs it)
+	retrans := n.kind == FAmnesia && n.inc > 1 &&
+		((p.T == dbft.CommitType && r.commit != nil && r.commit.Hash() == p.Hash()) ||
+			(p.T == dbft.PreCommitType && r.precommit != nil && r.precommit.Hash() == p.Hash()))
+	if retrans {
+		o.s.note("restarted_node_resent_recovered_commit")
+		if n.d != nil && p.V < n.d.ViewNumber {
+			o.s.note("restarted_node_resent_recovered_commit_of_lower_view")
+		}
+	}
+	if r.hasView && p.V < r.lastView && !retrans {
 		o.viol(n, "view_decreased", "height %d: broadcast %s carries view %d after a message of view %d", p.H, p.T, p.V, r.lastView)
 		return
 	}
-	r.lastView, r.hasView = p.V, true
+	if !retrans {
+		r.lastView, r.hasView = p.V, true
+	}
 	switch p.T {
 	case dbft.PrepareRequestType:
 		if h, ok := r.proposal[p.V]; ok && h != p.Hash() {
@@ -165,6 +178,26 @@ func (o *OracleC03) OnOut(n *Node, st *Step, out *Out) {
 func (o *OracleC03) AfterCall(n *Node, st *Step) {
 	if n.d == nil || st.Panic != nil || !n.judged() {
 		return
+	}
+	// A restarted node can get its own earlier commit / pre-commit back from its peers.  Once
+	// it holds one under its own index, that payload is the original: whatever (pre)commit it
+	// broadcasts later at this height must be identical to it.
+	if n.kind == FAmnesia && n.inc > 1 && n.d.MyIndex >= 0 {
+		r := o.rec(n, n.d.BlockIndex)
+		if p, ok := n.d.CommitPayloads[n.d.MyIndex].(*Payload); ok && p != nil && r.commit == nil {
+			r.commit = p
+			o.s.note("restarted_node_recovered_own_commit")
+			if p.V != n.d.ViewNumber {
+				o.s.note("restarted_node_recovered_own_commit_of_lower_view")
+			}
+		}
+		if p, ok := n.d.PreCommitPayloads[n.d.MyIndex].(*Payload); ok && p != nil && r.precommit == nil {
+			r.precommit = p
+			o.s.note("restarted_node_recovered_own_precommit")
+			if p.V != n.d.ViewNumber {
+				o.s.note("restarted_node_recovered_own_precommit_of_lower_view")
+			}
+		}
 	}
 	k := [2]int{n.id, n.inc}
 	m := o.st[k]
